@@ -15,10 +15,10 @@ CLAIMED = {
     "C02": ("model_checking", "6", "TLA+ env models + TLC exhaustive; real-env BFS traces validated by TLC",
             "Non-empty masks (also while padding), monotone done and step bounds are TLC invariants of the model and "
             "TLC monitors over the exhaustive real-code expansion."),
-    "C03": ("model_checking", "6", "TLC recomputes the objective of every real episode from the integer instance",
+    "C03": ("model_checking", "6", "TLC recomputes the objective of every real episode from the integer instance (Trace.tla.tmpl over spec/env/*.tla; DenseTSP.tla / DenseTrace for the step-wise reward of DenseRewardTSPEnv: step rewards telescope to the tour length)",
             "Reward of every real episode (exact embedding) must equal the TLA+ Objective of the executed sequence; "
             "TLC-generated feasible solutions are replayed and priced as well."),
-    "C04": ("model_checking", "6", "BatchEq.tla: TLC validates real solo vs batched executions; padding monitors on real-env BFS traces",
+    "C04": ("model_checking", "6", "BatchEq.tla: TLC validates real solo vs batched executions; padding monitors on real-env BFS traces; TSPBatch.tla (batch-global read); DenseTrace (step-wise rewards: padding reward 0, batch-mates irrelevant)",
             "Sampled real episodes are re-run solo (batch of one) and as rows of mixed batches (copies, unrelated instances, slower "
             "mates inducing padding); TLC checks step by step that masks, done flags and rewards coincide (BatchEq.tla) and that "
             "post-finish padding changes nothing (M_PadC04 on every episode of the exhaustive expansion)."),
@@ -28,7 +28,7 @@ CLAIMED = {
     "C06": ("model_checking", "6", "TLC classifies candidate solutions by the problem definition; real checker compared",
             "All feasible solutions, hand-shaped variants, single-fault corruptions and (small N) all sequences are "
             "classified by TLC with the problem definition and fed to the real check_solution_validity."),
-    "C07": ("model_checking", "6", "TLA+ scheduling modules (FJSP/JSSP/FFSP/SMTWTP): problem definition = schedule validity on final tensors; TLC exhaustive + real-env BFS traces validated by TLC",
+    "C07": ("model_checking", "6", "TLA+ scheduling modules (FJSP/JSSP/FFSP/SMTWTP): problem definition = schedule validity on final tensors; TLC exhaustive + real-env BFS traces validated by TLC; FJSPStepwise.tla (calc_lower_bound transcribed exactly; step rewards telescope to LB0 - makespan) with DenseSolo / DenseTrace and replay",
             "The scheduling environments are modelled as TLA+ state machines (time advance, waits, machine/job bookkeeping) and model-checked; the "
             "real environments are expanded over their own masks for small instance families and TLC validates every episode: the final "
             "start/finish/assignment tensors must form a valid schedule (each operation once, eligible machine, exact duration, job order, "
@@ -57,7 +57,7 @@ CLAIMED = {
             "histories of the real classes are validated by StatsTrace.tla. TrainingRun.tla (Setup / TrainEpoch / EpochEnd / Regen; warm-up "
             "schedule, baseline update iff better and significant) is model-checked for all runs of <= 4 epochs, every run is replayed into a real "
             "REINFORCE module with state comparison after every action, and real RL4COTrainer.fit runs are validated by TrainingRunTrace.tla."),
-    "C12": ("model_checking", "6", "Layout.tla index algebra + best-of-k, TLC exhaustive; replay into batchify/unbatchify/_select_best; LayoutTrace.tla on real select_start_nodes",
+    "C12": ("model_checking", "6", "Layout.tla index algebra + best-of-k, TLC exhaustive; replay into batchify/unbatchify/_select_best; LayoutTrace.tla on real select_start_nodes; unbounded lift by Apalache inductive invariants (MC_Layout_apa.tla) and TLAPS (LayoutIdx_proofs.tla) tied to Layout.tla by TLC equivalence; ACO.tla (ants as replicas, pheromone only from own ants) replayed into the real AntSystem",
             "Layout.tla (batchify/unbatchify as index functions, any nesting; best-of-k selection) is model-checked for all batch sizes x "
             "nestings x reward assignments of a small scope; every terminal state is replayed into the real tensor/TensorDict "
             "operations; forced start nodes of real environments are validated by LayoutTrace.tla (feasible, distinct per instance)."),
@@ -68,7 +68,7 @@ CLAIMED = {
             "are compared. StepwisePPO.tla (buffered transitions, mini-batches without replacement) and NStepPPO.tla (n-step returns, bootstrap, "
             "value clipping, curriculum; rewards from the TSPkoptEnv tour model) are explored exhaustively and every case goes through the real "
             "shared_step (real torchrl buffer, real TSPkoptEnv)."),
-    "C11": ("model_checking", "6", "Decode.tla.tmpl machine D (decoding protocol x env model x table policy), TLC exhaustive; real ConstructivePolicy with stub decoder compared behaviour by behaviour; DecodeTrace.tla on neural policies",
+    "C11": ("model_checking", "6", "Decode.tla.tmpl machine D (decoding protocol x env model x table policy), TLC exhaustive; real ConstructivePolicy with stub decoder compared behaviour by behaviour; DecodeTrace.tla on neural policies incl. non-autoregressive heat-map policies (DeepACO, NARGNN, AntSystem.get_logp)",
             "TLC enumerates every behaviour of the decoding protocol (greedy, sampling, multistart_*, evaluate) over the TSP and CVRP "
             "models with an explicit table policy and exact per-step probabilities; the table is plugged into the real "
             "ConstructivePolicy as a stub decoder and every real row must be a specification behaviour with the same per-step "
@@ -84,7 +84,7 @@ CLAIMED = {
             "recorded passes (all classes, shuffle, extra key, RL4COLitModule._dataloader_single) are validated by LoaderTrace.tla. TrainingRun.tla "
             "(wrap at set-up, at every regeneration and after baseline updates; rollout_only = warm-up length 0) is model-checked, replayed into a real "
             "REINFORCE module and validated on real RL4COTrainer.fit runs."),
-    "C15": ("model_checking", "6", "Augment.tla (dihedral maps) TLC exhaustive + replay; AugTrace.tla / EvalTrace (over the env problem definitions) on real evaluation classes",
+    "C15": ("model_checking", "6", "Augment.tla (dihedral maps) TLC exhaustive + replay; AugTrace.tla / EvalTrace (over the env problem definitions) on real evaluation classes; ACO.tla (ant-colony search: best = max over own ants x iterations) TLC exhaustive, replayed into the real AntSystem.run, ACOTrace.tla on real DeepACOPolicy runs",
             "The 8 dihedral maps are model-checked on the integer grid (distance preserving, first copy identity) and replayed into the real "
             "function; the continuous symmetric augmentation and every evaluation class (greedy, augmentation, sampling, multistart, "
             "multistart+augment over a data loader with partial batches) are run with a coordinate-sensitive table policy and each reported "
